@@ -108,10 +108,10 @@ class RedisMessageBroker(MessageBrokerT):
             keys=["parameters", "_reject_to"],
         )
 
-        if raw_params[0] is not None:
-            params = self.PARAMETERS_CLASS.decode(raw_params[0].decode())
-        else:  # pragma: no cover
-            params = self.PARAMETERS_CLASS()
+        if raw_params[0] is None:
+            # the message's data is gone: it has already been acknowledged, there is nothing to give back
+            return
+        params = self.PARAMETERS_CLASS.decode(raw_params[0].decode())
 
         reject_to = "n"  # normal queue
         if raw_params[1] is not None:
